@@ -38,7 +38,7 @@ RULE = ('case = one seeded history (config + PRNG seed). non-trivial = history w
 ASSUMPTIONS = ['the relay probe\'s per-recipient report is what "reported delivered by the relay" means',
                'a bounce factory returning None is a documented way to suppress a bounce and counts as reported']
 REQUIRED_HITS = ['attempt-outcomes-observed', 'histories-judged', 'recipients-ledgered', 'big-envelope-retry-attempts', 'real-relay-histories',
-                 'real-relay-http-failures-consumed', 'unreported-recipients-ledgered']
+                 'real-relay-http-failures-consumed', 'real-relay-http-deliveries', 'unreported-recipients-ledgered']
 SHARDS = {'quick': 12, 'thorough': 16}
 BUDGET = {'quick': 70, 'thorough': 800}
 
@@ -110,7 +110,9 @@ def _hits(lab, H, R):
             # whole-message failures the real HTTP relay raised and the Queue had to act on
             R.hit('real-relay-http-failures-consumed',
                   sum(1 for e in lab.events if e[1] == 'attempt_end' and e[4] in ('temp', 'perm')))
-            R.count('real-relay-http-deliveries', sum(1 for e in lab.events if e[1] == 'attempt_end' and e[4] == 'ok'))
+            # (required: if the scripted next hop were unreachable every attempt would 'fail' and the stratum
+            # would silently degenerate)
+            R.hit('real-relay-http-deliveries', sum(1 for e in lab.events if e[1] == 'attempt_end' and e[4] == 'ok'))
     R.hit('unreported-recipients-ledgered', sum(1 for e in lab.events if e[1] == 'attempt_end'
                                                 for c, _ in e[5].values() if c == 'A'))
     R.hit('recipients-ledgered', sum(len(i['rc']) for i in H.accepted.values()))
